@@ -501,7 +501,9 @@ func exploreHPair(scratch string, hp hpair, bound int, rep *Report, deadline tim
 	}
 	pr := PairReport{A: "handlers: " + hp.name, B: "", Bound: bound, Exhaustive: true}
 	nviol := 0
-	sched.Explore(bound, func(prefix []int) []sched.PointRec {
+	confirming, confirmed := false, false
+	var runOne func(prefix []int) []sched.PointRec
+	runOne = func(prefix []int) []sched.PointRec {
 		w, err := newHWorld(scratch)
 		if err != nil {
 			rep.Infra = "handler world: " + err.Error()
@@ -512,7 +514,7 @@ func exploreHPair(scratch string, hp hpair, bound int, rep *Report, deadline tim
 			hp.prep(w)
 			waitFree()
 		}
-		S := &sched.Sched{FreeGrace: 5 * time.Second} // (the server's own goroutines take part: they may hold a lock for a moment)
+		S := &sched.Sched{}
 		capped := false
 		yieldHooks(S, capFor(bound), &capped)
 		installSync(S)
@@ -538,11 +540,17 @@ func exploreHPair(scratch string, hp hpair, bound int, rep *Report, deadline tim
 		}
 		cas := Case{Kind: "interference-schedule", A: "handlers: " + hp.name, Schedule: sched.Choices(out.Points), Bound: bound}
 		switch {
+		case confirming:
+			confirmed = out.Deadlock
 		case out.Stuck:
 			pr.Exhaustive = false
 		case out.Deadlock:
-			rep.Violations = append(rep.Violations, Violation{"interference/handlers-deadlock", "two handlers block each other: " + hp.name, cas})
-			nviol++
+			if confirmDeadlock(runOne, sched.Choices(out.Points), &confirming, &confirmed) {
+				rep.Violations = append(rep.Violations, Violation{"interference/handlers-deadlock", "two handlers block each other: " + hp.name, cas})
+				nviol++
+			} else {
+				pr.Exhaustive = false
+			}
 		case diverged(pa, pb):
 			// the execution did not repeat under the recorded choices: something in the code under test is not
 			// deterministic (e.g. a goroutine the scheduler does not own); this schedule decides nothing
@@ -558,7 +566,8 @@ func exploreHPair(scratch string, hp hpair, bound int, rep *Report, deadline tim
 			}
 		}
 		return out.Points
-	}, func() bool { return nviol > 3 || time.Now().After(deadline) || rep.Infra != "" })
+	}
+	sched.Explore(bound, runOne, func() bool { return nviol > 3 || time.Now().After(deadline) || rep.Infra != "" })
 	if time.Now().After(deadline) {
 		pr.Exhaustive = false
 	}
@@ -602,7 +611,7 @@ func exploreHPairPrefix(scratch string, hp hpair, cas Case, rep *Report, done *b
 		hp.prep(w)
 		waitFree()
 	}
-	S := &sched.Sched{FreeGrace: 5 * time.Second}
+	S := &sched.Sched{}
 	yieldHooks(S, capFor(cas.Bound), nil)
 	installSync(S)
 	var ra, rb string
